@@ -48,6 +48,10 @@ def _ray2d_core(
     ray = np.empty((max_step, 2), dtype=np.float64)
     ray[0] = pcur.copy()
     while dist2d(zsrc, xsrc, pcur[0], pcur[1]) >= stepsize:
+        # Check the budget before storing a new point
+        if count >= max_step or nfree > nfree_max:
+            break
+
         gz = interp2d(z, x, zgrad, pcur)
         gx = interp2d(z, x, xgrad, pcur)
         gn = norm2d(gz, gx)
@@ -100,9 +104,6 @@ def _ray2d_core(
 
             ray[count] = pcur.copy()
             count += 1
-
-        if count >= max_step or nfree > nfree_max:
-            break
 
     if count >= max_step or nfree > nfree_max:
         return ray, -2
